@@ -6040,3 +6040,45 @@ def local_partials(fn):
     if done:
         ast.fix_missing_locations(fn)
     return done
+
+
+def adopt_static_functions(tree):
+    """class body `name = staticmethod(f)` where f is a module-level
+    function that is mentioned nowhere else -> the function moves into the
+    class as `@staticmethod def name` (its own decorators stay below)"""
+    funcs = {st.name: st for st in tree.body
+             if isinstance(st, ast.FunctionDef)}
+    done = False
+    for cls in tree.body:
+        if not isinstance(cls, ast.ClassDef):
+            continue
+        for i, st in enumerate(list(cls.body)):
+            if not (isinstance(st, ast.Assign) and len(st.targets) == 1
+                    and isinstance(st.targets[0], ast.Name)
+                    and isinstance(st.value, ast.Call)
+                    and norm(st.value.func) in ("staticmethod",
+                                                "classmethod")
+                    and len(st.value.args) == 1 and not st.value.keywords
+                    and isinstance(st.value.args[0], ast.Name)
+                    and st.value.args[0].id in funcs):
+                continue
+            f = funcs[st.value.args[0].id]
+            if sum(1 for n in ast.walk(tree) if isinstance(n, ast.Name)
+                   and n.id == f.name and isinstance(n.ctx, ast.Load)) != 1:
+                continue
+            if tree.body.index(f) > tree.body.index(cls):
+                continue
+            if any(isinstance(n, ast.Name) and n.id == f.name
+                   for n in ast.walk(f)):
+                continue
+            tree.body.remove(f)
+            funcs.pop(f.name)
+            f.name = st.targets[0].id
+            f.decorator_list = [ast.copy_location(ast.Name(
+                id=norm(st.value.func), ctx=ast.Load()), st)] + \
+                f.decorator_list
+            cls.body[cls.body.index(st)] = f
+            done = True
+    if done:
+        ast.fix_missing_locations(tree)
+    return done
